@@ -716,7 +716,7 @@ func stressCancel(seed int64, scale int) int {
 				if fbCalls.Load() > 0 {
 					v.add(key + ": fallback enclosed by the cancellation was applied")
 				}
-				if el > at+50*time.Millisecond {
+				if el > at+400*time.Millisecond { // generous: the waits it must not sit out are 1 s long
 					v.add(key + ": did not complete promptly after cancellation")
 				}
 				if lateStarts.Load() > 1 {
@@ -882,9 +882,16 @@ func stressLeaks(seed int64, scale int) int {
 			failsafe.NewExecutor[int](rp, rl, bh).WithContext(ctx).GetWithExecution(fn)
 		}
 	}
-	time.Sleep(150 * time.Millisecond)
-	runtime.GC()
-	after := runtime.NumGoroutine()
+	// grace period: poll up to 3 s (a loaded machine may need a while to run the last callbacks)
+	after := 0
+	for t0 := time.Now(); ; {
+		time.Sleep(50 * time.Millisecond)
+		runtime.GC()
+		after = runtime.NumGoroutine()
+		if after <= before+2 || time.Since(t0) > 3*time.Second {
+			break
+		}
+	}
 	v.c["goroutines-before"] = before
 	v.c["goroutines-after"] = after
 	if after > before+2 {
@@ -1080,6 +1087,15 @@ func init() {
 			fmt.Println("unknown scenario", args[0])
 			return 2
 		}
-		return f(*seed, *scale)
+		// scenario watchdog: executions that never finish (lost permits, a wait nobody wakes) are a finding, not a stall
+		done := make(chan int, 1)
+		go func() { done <- f(*seed, *scale) }()
+		select {
+		case rc := <-done:
+			return rc
+		case <-time.After(time.Duration(60+30**scale) * time.Second):
+			fmt.Printf("stress %s runs=0 outcomes={} violations={watchdog: executions did not finish (deadlock, lost permit or unwoken wait): 1} VIOLATION\n", args[0])
+			return 1
+		}
 	}
 }
